@@ -299,7 +299,7 @@ def run(ck, tier):
     import_findings(ck, 'C03', 'R8', ('R7',), 'a request for a unit id >= 128 is not routed to the unit it addresses', detail_prefixes=('signedness-mismatch',))
     ck.assume('non-interference between units as a run-time fact follows from R2 + C05 R2 and is not decided itself')
     from .. import ownership as _own
-    ck.guard(_own.rule_instance_owned, ck, cx, 'R9', _own.STORES, 'a write addressed to one unit changes the tables of another unit', 4)
+    ck.guard(_own.rule_instance_owned, ck, cx, 'R9', _own.STORES + _own.REMOTE, 'a write addressed to one unit changes the tables of another unit (a forwarding context: is sent on to another unit)', 4)
     from .c17 import r8_handler_bound_to_its_server
     ck.guard(r8_handler_bound_to_its_server, ck, cx, 'R10')
     ck.guard(r11_slaves_lists_every_hosted_unit, ck, cx)
@@ -307,4 +307,5 @@ def run(ck, tier):
     ck.guard(r13_unit_id_of_the_delivered_frame, ck, cx)
     from .. import options as _opt
     ck.guard(_opt.rule_options_read_at_construction, ck, cx, 'R14', ('pymodbus.server.sync', 'pymodbus.server.async_io', 'pymodbus.server.asynchronous'), ('IgnoreMissingSlaves', 'broadcast_enable'), 'the broadcast / missing-unit policy the application configured is ignored by this front-end')
+    ck.guard(_own.rule_no_mutable_default_stored, ck, cx, 'R15', _own.STORES + _own.REMOTE, 'what is configured for (or written through) the context of one unit shows up in the context of another unit', 3)
     return cx.idx
